@@ -92,7 +92,7 @@ func sample(r *common.Run, f *triex.Family) {
 		ps[i] = f.Pats[k]
 	}
 	o := triex.NewOracle(ps)
-	cov := make([]bool, 256)
+	cov := make([]bool, 4096)
 	for ti := len(f.Texts) - 1; ti >= 0; ti-- {
 		if regs := o.Regions(f.Texts[ti].S, cov, nil); len(regs) > 0 {
 			r.SampleL(f.Name, map[string]any{"patterns": triex.Q(ps), "text": fmt.Sprintf("%q", f.Texts[ti].S), "regions_lo_hi_occurrences": fmt.Sprint(regs)})
